@@ -1455,6 +1455,7 @@ M("RFM-connect-flags-struct-credentials", ["C09"], [("@patch", "selftest/mutants
 M("RFM-negotiated-window-unclamped", ["C06"], [("@patch", "selftest/mutants_rf/negotiated-unclamped.diff", "")], ["C06/init/max-value"])
 M("RFM-enumerate-index-over-skipped-iterator", ["C03"], [("@patch", "selftest/mutants_rf/enumerate-skip.diff", "")], ["C03/comp/removes-the-acknowledged-entry"])
 RF("RF-head-first-lookup-with-offset", ALL19, [("@patch", "selftest/refactors/RF-head-first-lookup.diff", "")])
+M("RFM-pass-enum-fresh-first", ["C01"], [("@patch", "selftest/mutants_rf/pass-enum-fresh-first.diff", "")], ["C01/priority/in-progress-first"])
 
 # fourth round: organisational refactorings (guard clauses, sub-borrows, loop forms, private structs, generic helpers)
 for _p in sorted(_glob.glob(_os.path.join(_os.path.dirname(_os.path.abspath(__file__)), "refactors", "rf4", "*.diff"))):
@@ -1479,4 +1480,30 @@ KNOWN_LIMITS = {
     "RF4-C12-03-packet-reader-combinators": ("as above (sub-slices bounded by `len().min(4)` and by the index `position` returned, folded with enumerate)",
                                              ["C08/panic/", "C08/varint/reader-probe"]),
     "RF4-C13-04-packet-reader-combinators": ("as above (position + fold over take(4) in the fixed-header probe)", ["C08/panic/", "C08/varint/reader-probe"]),
+    # round 5: re-representation of *anchored state* (the fields the properties' anchors name): the rules are written in
+    # terms of that state and fail closed (DESIGN.md 2.5 / 8)
+    "RF5-C05-01-broker-session-enum": ("`session_present: bool` (anchored state of C05/C12) becomes a private enum", ["C02/", "C04/", "C05/", "C06/", "C12/", "C18/"]),
+    "RF5-C12-03-session-present-flag-moves-to-session": ("`session_present` moves from SessionData to Session (anchored state)", ["C02/", "C04/", "C05/", "C06/", "C12/", "C18/"]),
+    "RF5-C08-01-framing-enum": ("`PacketReader::packet_length: Option<usize>` (anchored state of C08/C12/C14/C15) becomes a private enum", ["C08/", "C12/", "C14/", "C15/"]),
+    "RF5-C12-04-packet-reader-length-flag": ("`packet_length: Option<usize>` becomes value + flag (anchored state)", ["C08/", "C12/", "C14/", "C15/"]),
+    "RF5-C13-05-packet-reader-frame-enum": ("`packet_length: Option<usize>` becomes a private enum (anchored state)", ["C08/", "C12/", "C14/", "C15/"]),
+    "RF5-C15-01-reader-length-flag": ("`packet_length: Option<usize>` becomes value + flag (anchored state)", ["C08/", "C12/", "C14/", "C15/"]),
+    "RF5-C17-02-arena-struct": ("`Outbound::{buf, used}` (anchored state of C17) grouped into a private `Arena` struct", ["C01/", "C02/", "C12/", "C17/"]),
+    "RF5-C18-04-generation-in-outbound": ("the generation counter (anchored state of C05/C18) moves from SessionData into Outbound", ["C05/", "C18/"]),
+    "RF5-C09-02-ser-body-len-cursor": ("`MqttSerializer::index` (anchored state of C01.len) replaced by a body-length counter", ["C01/len/"]),
+    "RF5-C08-03-deserializer-remaining-slice": ("`MqttDeserializer::{buf, index}` replaced by the remaining slice + total length: the new `split_at` / subtraction sites "
+                                                "have no entry in the panic-site discharge table", ["C08/panic/"]),
+    "RF5-C07-01-counter-plain-u16": ("the identifier counter loses its `NonZeroU16` type: the non-zero argument of C07 is by type, the arithmetic replacement "
+                                     "(`match n.wrapping_add(1) { 0 => 1, n => n }`) is not evaluated", ["C07/nz/"]),
+    # round 5: other documented limits
+    "RF5-C01-04-control-action-methods": ("reference free functions become methods with *reordered* parameters (serialize_control_packet, "
+                                          "check_control_packet_size): positional argument rules lose the site", ["C04/offarena/", "C14/tx/"]),
+    "RF5-C03-05-pubrel-size-and-encode-as-methods": ("as above (serialize_pubrel / check_pubrel_size with regrouped parameters; queue_release takes a ready-made record)",
+                                                     ["C03/rel/id", "C03/wire/", "C04/offarena/", "C14/tx/"]),
+    "RF5-C10-05-pingreq-decision-on-session-data": ("both keep-alive decision functions deleted, the enqueue folded into the two step loops: the `due` truth table is taken "
+                                                    "of a loop-free function", ["C10/ANCHOR-LOST/due/"]),
+    "RF5-C18-02-status-predicates": ("`Session::status` and `OpStatus` deleted, the three public predicates written out directly: the decision table is taken of `status`",
+                                     ["C05/ANCHOR-LOST/status/", "C18/ANCHOR-LOST/status/"]),
+    "RF5-C20-05-iter-next-per-variant": ("`PropertiesIter::next` split into per-variant helpers over `&mut index`: the dominating guard of the index arithmetic is spelled "
+                                         "over parameters", ["C08/panic/"]),
 }
